@@ -108,8 +108,11 @@ package align
 // one-character pattern and replacement: exactly the residues equal to the pattern are rewritten and nothing else.
 // (these clauses rest on the assumed contract of strings.Replace in specs/externs.spec; regex mode: frame only)
 //@ func (*seqbag).Replace
-//@   props C15
+//@   props C15 C01
 //@   requires wf(sb)
+//@   ensures wf(sb) && sb.alphabet == old(sb.alphabet)
+//@   ensures err != nil ==> regex
+//@   ensures err == nil ==> forall r :: 0 <= r && r < nrows(sb) ==> fresh(row(sb, r).sequence)
 //@   ensures !regex ==> err == nil
 //@   ensures nrows(sb) == old(nrows(sb)) && (forall r :: 0 <= r && r < nrows(sb) ==> row(sb, r) == old(row(sb, r)) && rowname(sb, r) == old(rowname(sb, r)))
 //@   ensures err != nil ==> forall r :: 0 <= r && r < nrows(sb) ==> sameslice(row(sb, r).sequence, old(row(sb, r).sequence))
@@ -118,10 +121,11 @@ package align
 //@   ensures !regex && len(old) == 1 && len(new) == 1 ==> forall r, c :: 0 <= r && r < nrows(sb) && 0 <= c && c < rowlen(sb, r) ==> cell(sb, r, c) == (old(cell(sb, r, c)) == old[0] ? new[0] : old(cell(sb, r, c)))
 //@   modifies field(seq.sequence)
 //@   loop 1
-//@     invariant 0 <= seq && err == nil && r != nil
+//@     invariant 0 <= seq && regex && err == nil && r != nil
+//@     invariant forall q :: 0 <= q && q < seq && q < nrows(sb) ==> fresh(row(sb, q).sequence)
 //@     decreases nrows(sb) - seq
 //@   loop 2
-//@     invariant 0 <= seq && seq <= nrows(sb) && err == nil
+//@     invariant 0 <= seq && seq <= nrows(sb) && !regex && err == nil
 //@     invariant forall r :: seq <= r && r < nrows(sb) ==> sameslice(row(sb, r).sequence, old(row(sb, r).sequence))
 //@     invariant forall r :: 0 <= r && r < seq ==> fresh(row(sb, r).sequence) && allocated(row(sb, r).sequence)
 //@     invariant len(old) >= 1 && len(old) == len(new) ==> forall r :: 0 <= r && r < seq ==> rowlen(sb, r) == old(rowlen(sb, r))
@@ -134,18 +138,5 @@ package align
 // (*align).Replace = (*seqbag).Replace, then a check that every row still has the cached length (closure handed to IterateChar, verified
 // separately below; its effect on `err` is havocked at the call site, so the error result is NOT characterised here).
 // Proved: same rows, order, names, cached length; the length / one-character residue clauses of (*seqbag).Replace.
-//@ func (*align).Replace
-//@   props C15
-//@   requires wfa(a)
-//@   ensures a.length == old(a.length) && nrows(a) == old(nrows(a)) && (forall r :: 0 <= r && r < nrows(a) ==> row(a, r) == old(row(a, r)) && rowname(a, r) == old(rowname(a, r)))
-//@   ensures !regex && len(old) >= 1 && len(old) == len(new) ==> forall r :: 0 <= r && r < nrows(a) ==> rowlen(a, r) == old(rowlen(a, r))
-// NOT COVERED (proof found for the function alone, `unknown` in the full C15 run): ensures !regex && len(old) >= 1 && len(old) == len(new) ==> forall r, c :: 0 <= r && r < nrows(a) && 0 <= c && c < rowlen(a, r) ==> cell(a, r, c) == old(cell(a, r, c)) || c15b_inocc(a, old, new, r, c)
-//@   ensures !regex && len(old) == 1 && len(new) == 1 ==> forall r, c :: 0 <= r && r < nrows(a) && 0 <= c && c < rowlen(a, r) ==> cell(a, r, c) == (old(cell(a, r, c)) == old[0] ? new[0] : old(cell(a, r, c)))
-//@   modifies field(seq.sequence)
-
-// the length check: stops (returns true) exactly on a row whose length differs from the cached length, and then sets the error
-//@ func (*align).Replace$1
-//@   props C15
-//@   requires a != nil
-//@   ensures result == (len(s) != a.length) && (result ==> err != nil)
-//@   modifies nothing
+// (*align).Replace and (*align).Replace$1: one contract each, in zz_contracts_c01b_verif.go (tagged C01 C15; the error result is
+// characterised there through the iterator protocol)
